@@ -45,7 +45,19 @@ def writer_headers_rule(F, rep, M):
         rep.ob("H.writer-char", ok, "PortData::" + fn, "character", "leader must be written with follower=false and the follower with follower=true, both with the port's own number")
     fw = F.body("frame::immutable::slippi::<impl frame::immutable::Frame>::write")
     t3 = tir.pretty(fw["tir"]["value"])
-    rep.ob("H.writer-rows", "for (idx, &frame_id) in self.id.values().iter().enumerate()" in t3.replace("&frame_id", "&frame_id") or "self.id.values().iter().enumerate()" in t3, "Frame::write", "rows", "frames must be written row by row in column order")
+    rows_ok = False
+    fw = F.body("frame::immutable::slippi::<impl frame::immutable::Frame>::write")
+    for lp in (tir.walk(fw["tir"]["value"]) if fw is not None else []):
+        if lp.get("k") == "For":
+            src = strip(lp["iter"])
+            adaptors = []
+            while src.get("k") == "MethodCall" and src["method"] in ("iter", "into_iter", "enumerate", "copied", "cloned", "values", "by_ref") and not src.get("args"):
+                adaptors.append(src["method"])
+                src = strip(src["recv"])
+            if tir.place(src) == "self.id" and "values" in adaptors and "enumerate" in adaptors and lp["pat"].get("k") == "Tuple" and len(lp["pat"].get("pats", [])) == 2:
+                rows_ok = True
+            break         # the outermost loop decides
+    rep.ob("H.writer-rows", rows_ok, "Frame::write", "rows", "frames must be written row by row in column order (the outer loop enumerates the id column's values)")
 
 
 def raw_blocks_rule(F, rep):
@@ -352,6 +364,15 @@ def run(F, rep, tier):
     _G = _reach.Graph(F)
     amb = C18.ambient_state(F, _G, _G.reachable(["io::slippi::ser::write"]))
     rep.ob("writer.stateless", not amb, "io::slippi::ser::write", "ambient-state", "the .slp writer's reachable set keeps state across calls (%s)" % "; ".join("%s in %s @ %s" % (c, _reach.short(o), sp) for o, c, sp in amb[:3]))
+    # End::size feeds the doubled-Game-End test of the reader and the payload table of a game without an end
+    from props import C05 as _C05
+    _C05.end_size_rule(F, rep)
+    # the reader must accept every well-formed file: the block decoders refuse nothing the spec's value domains allow
+    import model as _model
+    _C05.end_rule(F, rep, _model.load_spec("start_spec.json"))
+    _C05.no_extra_refusal_rule(F, rep)
+    from props import C08 as _C08
+    _C08.trailing_rule(F, rep)
     C16.reader_grammar(F, rep)
     C16.writer_grammar(F, rep)
     C16.writer_domain_rule(F, rep)
